@@ -329,7 +329,10 @@ def run_impl(d):
 
 
 # ---- shapes outside the modelled fragment: implementation vs isolated result of a fresh query
-def _extra_query(shape, vars_, V1):
+CMP_SHAPES = ("cmp_twice", "cmp_twice1", "cmp_not", "cmp_plain")
+
+
+def _extra_query(shape, vars_, V1, shared=None):
     import operator as _op
     from krrood.entity_query_language.entity import entity, set_of, or_, not_, and_, inference, exists, for_all
     from krrood.entity_query_language.quantify_entity import an
@@ -346,6 +349,19 @@ def _extra_query(shape, vars_, V1):
         return an(set_of([x, y], or_(x.a == shape[1], y.a == shape[2]))), lambda r: [r[x].ident, r[y].ident]
     if name == "andnot":
         return an(entity(x, and_(x.a >= shape[1], not_(x.a == shape[2])))), lambda r: [r.ident]
+    if name in CMP_SHAPES:
+        # ONE comparison object per threshold, shared by every query of the build: c = x.a > t
+        shared = {} if shared is None else shared
+        c = shared.get(("cmp", shape[1]))
+        if c is None:
+            c = shared[("cmp", shape[1])] = (x.a > shape[1])
+        if name == "cmp_twice":       # the comparison occurs twice among the conditions of one query, a join in between
+            return an(set_of([x, y], c, y.a >= 0, c)), lambda r: [r[x].ident, r[y].ident]
+        if name == "cmp_twice1":      # the same with a single variable
+            return an(entity(x, and_(c, x.a >= 0, c))), lambda r: [r.ident]
+        if name == "cmp_not":
+            return an(entity(x, not_(c))), lambda r: [r.ident]
+        return an(entity(x, c)), lambda r: [r.ident]
     cmp_ = [_op.lt, _op.le, _op.eq, _op.ge][shape[1] % 4] if len(shape) > 1 and isinstance(shape[1], int) else _op.lt
     if name == "exists":          # x such that some y stands in relation to it: one result per x, whichever y witnesses it
         return an(entity(x, exists(y, cmp_(y.a, x.a)))), lambda r: [r.ident]
@@ -384,7 +400,8 @@ def _extra_build(d):
     C = _classes()
     objs = _objects(d["W"], d["A"])
     vars_ = [let(C["P"], [objs[i] for i in w], name=f"v{k}") for k, w in enumerate(d["W"])]
-    return [_extra_query(s, vars_, C["V1"]) for s in d["shapes"]]
+    shared: Dict[Any, Any] = {}
+    return [_extra_query(s, vars_, C["V1"], shared) for s in d["shapes"]]
 
 
 def _rows_or_exc(q, ext) -> List[Any]:
@@ -1031,6 +1048,20 @@ def gen_extra_cases(tier, rng) -> List[dict]:
                 for n_before in (1, 2, 3):
                     out.append({"kind": "extra", "W": Wl, "A": Al, "shapes": [[k, c1, c2]], "its": [0, 0, 0],
                                 "ops": [["N", 0]] * n_before + [["X", 0]] + [["N", 1]] * 5 + [["N", 2]] * 5, "src": "extra-abandon-leak"})
+    # ONE comparison object used twice in a query, shared with another query (or the same query evaluated twice): the second
+    # occurrence must be answered from the row's own bindings, whatever other evaluations did to the node in between
+    Wc, Ac = [[10, 11, 12], [20, 21]], [[10, 2], [11, 3], [12, 1], [20, 1], [21, 2]]
+    Lc = 6 if tier == "quick" else 8
+    for shapes, its in (([["cmp_twice", 1, 0], ["cmp_not", 1, 0]], [0, 1]), ([["cmp_twice", 1, 0], ["cmp_plain", 1, 0]], [0, 1]),
+                        ([["cmp_twice", 1, 0]], [0, 0]), ([["cmp_twice1", 1, 0], ["cmp_not", 1, 0]], [0, 1]),
+                        ([["cmp_twice", 2, 0], ["cmp_not", 2, 0]], [0, 1])):
+        for warm in (False, True):
+            for nn in range(2, Lc + 1):
+                for word in itertools.product([0, 1], repeat=nn):
+                    if 0 not in word or 1 not in word:
+                        continue
+                    out.append({"kind": "extra", "W": Wc, "A": Ac, "shapes": shapes, "its": its, "warm": warm,
+                                "ops": [["N", i] for i in word], "src": "extra-shared-comparison"})
     # after one complete warm-up evaluation: every interleaving of two (three) further evaluations of the SAME query object,
     # for every quantifier / connective shape: nested loops, lock-step and suspended-then-resumed are all among the words
     worlds = [([[10, 11, 12], [20, 21, 22]], [[10, 0], [11, 1], [12, 2], [20, 0], [21, 1], [22, 3]]),
@@ -1092,7 +1123,7 @@ def extra_verdict(d, impl) -> Tuple[str, Any]:
     shapes_vars = []
     for qi in d["its"]:
         s = d["shapes"][qi]
-        two = s[0] in ("or2", "exists", "exists_and", "exists2", "forall", "not_exists")
+        two = s[0] in ("or2", "exists", "exists_and", "exists2", "forall", "not_exists", "cmp_twice")
         shapes_vars.append({0, 1} if two and len(d["W"]) > 1 else {0})
     classes = set()
     for i in range(n):
